@@ -44,7 +44,8 @@ def val_step(cfg, n_iter, i, k):
             cr = (conc(i, avals[0][1]),) + tuple(cr[1:])
             return eqx.tree_at(lambda c_: c_[5].call_every, cr, conc(k, np.int64))
         def fn(*leaves):
-            return body(mk(leaves, lambda v, dt: jnp.asarray(v, dtype=dt)))
+            with rar_contract(bool(cfg.get("rar"))):
+                return body(mk(leaves, lambda v, dt: jnp.asarray(v, dtype=dt)))
         def spec(*leaves, wrong=False):
             cr = jax.tree_util.tree_unflatten(treedef, list(leaves))
             def hook(p1, th1, a1, extra, val, crit):
@@ -150,6 +151,9 @@ def obligations(tier):
     # with tracked parameters: the history rows are the iteration's own parameters, whatever validation retains
     for i in range(3):
         obs.append(val_step(cfgs[3], 3, i, 2))
+    # with a refining generator: refinement sees the current parameters, not the ones validation retains
+    for i in range(3):
+        obs.append(val_step(c07.rar_config(), 3, i, 2))
     for wp in (False, True):
         for wo in (False, True):
             obs.append(validation_loss_ob(wp, wo))
